@@ -107,8 +107,18 @@ def full_response(bank, i, D):
     return H
 
 
-def oracle_features(c, x, config):
-    Lv, Sv, D = c.frame_length, c.frame_shift, c._dft_size
+def documented_dft_size(Lv, pad):
+    """frame_length, or the first power of two at or beyond it (never read from the computer)."""
+    if not pad:
+        return Lv
+    D = 1
+    while D < Lv:
+        D *= 2
+    return D
+
+
+def oracle_features(c, x, config, D):
+    Lv, Sv = c.frame_length, c.frame_shift
     N = len(x)
     ncoef = c.bank.num_filts + int(c.includes_energy)
     if N < Lv // 2 + 1:
@@ -164,7 +174,7 @@ def end_to_end(ctx):
         rate = rng.choice([8000, 16000])
         lo = rng.choice([0.0, 20.0, 100.0])
         bank = ctor(rate, lo)
-        flm = rng.choice([None, 2.5, 3.1, 4.0, 5.1, 6.3, 8.0, 12.7, 25.0])
+        flm = rng.choice([None, 2.5, 3.1, 4.0, 5.1, 6.3, 8.0, 12.7, 16.0, 25.0, 32.0])
         fsm = rng.choice([1.0, 2.0, 2.5, 10.0])
         kw = dict(frame_length_ms=flm, frame_shift_ms=fsm, frame_style=rng.choice(["causal", "centered"]),
                   kaldi_shift=rng.random() < 0.4, include_energy=rng.random() < 0.5,
@@ -177,15 +187,23 @@ def end_to_end(ctx):
         Lv, Sv = c.frame_length, c.frame_shift
         if not (0 < Sv <= Lv):
             continue
+        D = documented_dft_size(Lv, kw["pad_to_nearest_power_of_two"])
         for N in [Lv // 2, Lv // 2 + 1, Lv, rng.randint(Lv // 2 + 1, 3 * Lv + 7)]:
-            x = nprng.randn(N)
+            # loud noise, quiet and very quiet noise (mean square below LOG_FLOOR_VALUE), digital silence,
+            # a loud burst followed by silence (frames on both sides of the floor)
+            level = rng.choice(["loud", "loud", "quiet", "faint", "silence", "burst"])
+            x = nprng.randn(N) * {"loud": 1.0, "quiet": 1e-3, "faint": 1e-6, "silence": 0.0, "burst": 1.0}[level]
+            if level == "burst":
+                x[N // 3:] *= 1e-4
             got = c.compute_full(x)
-            ref = oracle_features(c, x, config)
-            desc = dict(bank=name, rate=rate, low_hz=lo, frame_length=Lv, frame_shift=Sv, dft_size=c._dft_size, N=N,
+            ref = oracle_features(c, x, config, D)
+            desc = dict(bank=name, rate=rate, low_hz=lo, frame_length=Lv, frame_shift=Sv, dft_size=D, N=N, level=level,
                         **{k: str(v) for k, v in kw.items()})
             ctx.case(desc, nontrivial=got.shape[0] > 0)
             ctx.count("e2e:" + name)
-            ctx.count("dft%%4=%d" % (c._dft_size % 4))
+            ctx.count("e2e:level=" + level)
+            ctx.count("e2e:frame_length_is_power_of_two=%s" % (Lv & (Lv - 1) == 0))
+            ctx.count("dft%%4=%d" % (D % 4))
             if got.shape != ref.shape:
                 bad.append(dict(desc, what="shape", got=list(got.shape), expected=list(ref.shape)))
                 continue
@@ -203,7 +221,7 @@ def end_to_end(ctx):
         # default frame length keeps a bin per filter
         if flm is None:
             for i in range(bank.num_filts):
-                st, tr = bank.get_truncated_response(i, c._dft_size)
+                st, tr = bank.get_truncated_response(i, D)
                 if not (len(tr) >= 1 and np.any(np.abs(tr) > 0)):
                     bad.append(dict(desc, what="default frame length leaves filter %d without a non-zero bin" % i))
     return bad
@@ -212,6 +230,7 @@ def end_to_end(ctx):
 def run(ctx):
     C.ensure_impl_path()
     stft.regenerate(ctx)
+    stft.regenerate_scalar(ctx)
     pr = C.proof_step(ctx)
     rng = ctx.rng
     # (i) walk probes
